@@ -112,6 +112,7 @@ type pathCtx struct {
 	domSkips int
 	pend     []pendingAssert
 	tlsConns map[*value]*tlsState
+	fsys     *fsState
 	x509     *x509State
 	fixedSched bool
 	tlsDialTarget iface
